@@ -1288,6 +1288,175 @@ Proof.
 Qed.
 
 (* ====================================================================================================== *)
+(* 6b. the data / attribute procedures: WRITE (transparent) and SETATTR (preserves the invariant)         *)
+(* ====================================================================================================== *)
+(* f' is f with the object at p (if any) replaced by one of the same kind *)
+Definition attr_change (f f' : fsmap) (p : path) : Prop :=
+  WF f' /\ nolinks f' /\ (forall q, q <> p -> pk f' q = pk f q) /\ (forall q, kd f' q = kd f q) /\
+  (forall q, fs_get f' q = None <-> fs_get f q = None) /\ (forall d, listing f' d = listing f d).
+Lemma attr_change_refl f p : WF f -> nolinks f -> attr_change f f p.
+Proof. intros W NL. split; [exact W|]. split; [exact NL|]. repeat split; intros; auto. Qed.
+Lemma attr_change_trans f f1 f2 p : attr_change f f1 p -> attr_change f1 f2 p -> attr_change f f2 p.
+Proof.
+  intros (_ & _ & A3 & A4 & A5 & A6) (B1 & B2 & B3 & B4 & B5 & B6). split; [exact B1|]. split; [exact B2|].
+  split; [intros q Q; rewrite B3, A3 by exact Q; reflexivity|]. split; [intros q; rewrite B4, A4; reflexivity|].
+  split; [intros q; rewrite B5, A5; tauto|intros d; rewrite B6, A6; reflexivity].
+Qed.
+Lemma attr_change_upd f p g : WF f -> nolinks f -> (forall o, fs_get f p = Some o -> o_kind (g o) = o_kind o) ->
+  attr_change f (fs_upd f p g) p.
+Proof.
+  intros W NL K.
+  assert (KD : forall q, kd (fs_upd f p g) q = kd f q).
+  { intros q. unfold kd. rewrite fs_get_upd. peq q p; [|reflexivity]. subst q.
+    destruct (fs_get f p) as [o|] eqn:G; cbn; [rewrite (K o eq_refl)|]; reflexivity. }
+  split; [|split; [|split; [|split; [exact KD|split]]]].
+  - split; [rewrite keys_upd; apply (wf_nodup f W)|rewrite KD; apply (wf_root f W)|].
+    intros q x H NE. rewrite KD. rewrite fs_get_upd in H.
+    destruct (fs_get f q) as [o0|] eqn:G; [|destruct (path_eqb q p); discriminate]. eapply wf_parent; eassumption.
+  - intros q x H. rewrite fs_get_upd in H. peq q p; [|eapply NL; exact H]. subst q.
+    destruct (fs_get f p) as [o0|] eqn:G; [|discriminate]. injection H as <-. rewrite (K o0 eq_refl). eapply NL. exact G.
+  - intros q Q. unfold pk. rewrite fs_get_upd. apply peqb_neq in Q. rewrite Q. reflexivity.
+  - intros q. apply fs_get_upd_none.
+  - intros d. apply listing_upd.
+Qed.
+Lemma noent_attr_change f f' p q : WF f -> attr_change f f' p -> noent f q -> noent f' q.
+Proof.
+  intros W (_ & _ & _ & A4 & A5 & _) N. unfold noent. replace (rwalk f' [] q) with (rwalk f [] q); [exact N|]. symmetry.
+  apply rwalk_ext; cbn [app].
+  - intros x _ _. split; [apply A4|apply A5].
+  - pose proof (noent_absent f q W N) as A. rewrite A. apply A5. exact A.
+Qed.
+Lemma Good_attr'' s p f' s' : Good s -> attr_change (fs s) f' p -> fs s' = f' -> hm s' = hm s -> conf s' = conf s ->
+  (forall e, In e (ac s') -> In e (ac s) /\ (ac_attrs e <> None -> ac_path e <> p)) ->
+  (dir_on (conf s) = true -> forall e, In e (dc s') -> In e (dc s)) ->
+  Good s'.
+Proof.
+  intros G AC A1 A2 A4 HA HD. pose proof AC as (W' & NL' & C3 & C4 & C5 & C6).
+  destruct G as [W NL H [CA CD]]. split.
+  - rewrite A1. exact W'.
+  - rewrite A1. exact NL'.
+  - unfold HOK. rewrite A2. exact H.
+  - split.
+    + apply Forall_forall. intros e He. destruct (HA e He) as [I F]. rewrite A1.
+      pose proof (proj1 (Forall_forall _ _) CA e I) as OK. unfold ac_ok in *. destruct (ac_attrs e) as [a|].
+      * unfold attr_ok in *. rewrite C3; [exact OK|apply F; discriminate].
+      * exact (noent_attr_change (fs s) f' p _ W AC OK).
+    + rewrite A4. intros ON. apply Forall_forall. intros e He. specialize (HD ON e He). rewrite A1.
+      destruct (proj1 (Forall_forall _ _) (CD ON) e HD) as [D1 D2]. split; [rewrite C4; exact D1|rewrite C6; exact D2].
+Qed.
+Lemma Good_attr' s p f' s' : Good s -> attr_change (fs s) f' p -> modfs s f' s' ->
+  (forall e, In e (ac s') -> In e (ac s) /\ (ac_attrs e <> None -> ac_path e <> p)) ->
+  (dir_on (conf s) = true -> forall e, In e (dc s') -> In e (dc s)) ->
+  Good s'.
+Proof. intros G AC (A1 & A2 & A3 & A4 & A5). apply (Good_attr'' s p f' s' G AC A1 A2 A4). Qed.
+(* the operations *)
+Lemma attr_change_meta f p fl g : WF f -> nolinks f -> nodd p -> keeps_kind g -> attr_change f (fst (be_meta f p fl g)) p.
+Proof.
+  intros W NL ND K. destruct (be_meta_spec f W NL p fl g ND) as [e S]. rewrite S.
+  destruct (fs_get f p); cbn [fst]; [apply attr_change_upd; auto|apply attr_change_refl; assumption].
+Qed.
+Lemma attr_change_truncate f p sz t : WF f -> nolinks f -> nodd p -> attr_change f (fst (be_truncate f p sz t)) p.
+Proof.
+  intros W NL ND. destruct (be_truncate_cases f p sz t W NL ND) as [[E|E] _]; rewrite E;
+    [apply attr_change_refl; assumption|apply attr_change_upd; auto].
+Qed.
+Lemma attr_change_sync f p : WF f -> nolinks f -> attr_change f (be_sync f p) p.
+Proof. intros W NL. unfold be_sync. apply attr_change_upd; auto. intros o _. destruct (o_kind o) eqn:K; cbn; auto. Qed.
+Lemma attr_change_writeat f p off bs t : WF f -> nolinks f -> attr_change f (fst (be_writeat f p off bs t)) p.
+Proof.
+  intros W NL. unfold be_writeat. destruct (fs_get f p) as [o|] eqn:G; [|apply attr_change_refl; assumption].
+  destruct (o_kind o) eqn:K; cbn [fst]; try (apply attr_change_refl; assumption).
+  destruct ((off <? 0)%Z || (two63 <=? off + Z.of_nat (length bs))%Z); cbn [fst]; [apply attr_change_refl; assumption|].
+  apply attr_change_upd; auto. intros o0 G0. rewrite G in G0. injection G0 as <-. cbn. reflexivity.
+Qed.
+
+Lemma be_open_ok_inv f p w q : WF f -> nolinks f -> nodd p -> be_open f p w = Ok q -> q = p /\ exists o, fs_get f p = Some o.
+Proof.
+  intros W NL ND B. destruct (be_open_spec f W NL p w ND) as [e S]. rewrite S in B.
+  destruct (fs_get f p) as [o|]; [|discriminate]. destruct (kind_eqb (o_kind o) KDir && w); [discriminate|].
+  injection B as <-. split; [reflexivity|exists o; reflexivity].
+Qed.
+Lemma be_writeat_err f p off bs t e : snd (be_writeat f p off bs t) = Err e -> fst (be_writeat f p off bs t) = f.
+Proof.
+  unfold be_writeat. destruct (fs_get f p) as [o|]; [|reflexivity]. destruct (o_kind o); try reflexivity.
+  destruct ((off <? 0)%Z || (two63 <=? off + Z.of_nat (length bs))%Z); [reflexivity|discriminate].
+Qed.
+Lemma write_block_good s p off data t s' : Good s -> nodd p ->
+  modfs s (fst (be_chtimes (be_sync (fst (be_writeat (fs s) p off data t)) p) p t)) s' ->
+  ac s' = ac_remove (ac s) p -> dc s' = dc s -> Good s'.
+Proof.
+  intros G ND M EA ED. pose proof (g_wf s G) as W. pose proof (g_nl s G) as NL.
+  assert (A1 : attr_change (fs s) (fst (be_writeat (fs s) p off data t)) p) by (apply attr_change_writeat; assumption).
+  assert (A2 : attr_change (fs s) (be_sync (fst (be_writeat (fs s) p off data t)) p) p).
+  { eapply attr_change_trans; [exact A1|]. apply attr_change_sync; apply A1. }
+  assert (A3 : attr_change (fs s) (fst (be_chtimes (be_sync (fst (be_writeat (fs s) p off data t)) p) p t)) p).
+  { eapply attr_change_trans; [exact A2|]. unfold be_chtimes. apply attr_change_meta; [apply A2|apply A2|exact ND|apply set_meta_kind]. }
+  eapply (Good_attr' s p _ s' G A3 M).
+  - intros e He. rewrite EA in He. apply in_ac_remove in He. destruct He as [I N]. split; [exact I|intros _; exact N].
+  - intros _ e He. rewrite ED in He. exact He.
+Qed.
+Lemma Good_nodes s n : Good s -> Good (with_nodes s n).
+Proof. intros [W NL H C]. split; sproj; assumption. Qed.
+Lemma Good_node_upd s h g : Good s -> Good (node_upd s h g).
+Proof. intros G. unfold node_upd. destruct (node_get s h); [apply Good_nodes; exact G|exact G]. Qed.
+Lemma node_upd_sim s t h g : sim s t -> (forall a a', pn a = pn a' -> pn (g a) = pn (g a')) -> sim (node_upd s h g) (node_upd t h g).
+Proof.
+  intros S HG. unfold node_upd. pose proof (node_get_rel s t h S) as R.
+  destruct (node_get s h) as [a|], (node_get t h) as [a'|]; try contradiction; [|exact S].
+  apply node_set_sim; [exact S|apply HG; exact R].
+Qed.
+
+Lemma handle_write_rel s t h off cnt stable data : SIM s t ->
+  HREL (handle_write s h off cnt stable data) (handle_write t h off cnt stable data).
+Proof.
+  intros HS. unfold handle_write.
+  rewrite <- (sim_ro s t (proj1 HS)), <- (sim_tsize s t (proj1 HS)), <- (sim_maxfile s t (proj1 HS)).
+  destruct (ro (conf s)); [leaf|]. destruct (two64 - 1 - cnt <? off); [leaf|].
+  destruct (negb (cnt =? N.of_nat (length data))); [leaf|]. destruct (tsize (conf s) <? cnt); [leaf|].
+  destruct ((0 <? maxfile (conf s)) && (0 <? cnt) && ((maxfile (conf s) <? off) || (maxfile (conf s) - off <? cnt))); [leaf|].
+  lnode; [|leaf]. kindeq. destruct (kind_eqb (na_kind n) KLink); [leaf|].
+  lock; [|leaf].
+  destruct (two63N <=? off); [lock; leaf|]. cbv zeta. cbn [fs now logc].
+  match goal with HS' : SIM ?s1 ?t1 |- _ =>
+    rewrite <- (sim_fs s1 t1 (proj1 HS')), <- (sim_now s1 t1 (proj1 HS'));
+    pose proof (sim_fs s1 t1 (proj1 HS')) as EF; pose proof (sim_now s1 t1 (proj1 HS')) as EN;
+    pose proof (SIM_logc s1 t1 (bc BOpenW p) (bc BOpenW p) HS') as HSL;
+    destruct (be_open (fs s1) p true) as [q|e] eqn:BO; [|clear HS'; lock; leaf];
+    destruct (be_open_ok_inv (fs s1) p true q (g_wf _ (proj1 (proj2 HS'))) (g_nl _ (proj1 (proj2 HS'))) ltac:(nd) BO) as [-> _];
+    destruct HS' as (S1 & G1 & G2)
+  end.
+  match goal with |- context [be_writeat ?f p ?o ?d ?tt] => set (w := be_writeat f p o d tt) in * end.
+  destruct (snd w) as [nw|e] eqn:SW.
+  - (* written *)
+    unfold lift_unit, do_stat. cbn [fst snd fs now logc with_fs ac_invalidate with_ac]. rewrite <- ?EN, <- ?EF.
+    match goal with |- context [node_upd (logc ?s6 (bc BStat p)) h] =>
+      match goal with |- context [node_upd (logc ?t6 (bc BStat p)) h] =>
+        lazymatch s6 with t6 => fail | _ => idtac end;
+        assert (HS6 : SIM s6 t6) end end.
+    { split; [eapply sim_modfs; [exact S1|solve_modfs|solve_modfs]|]. split.
+      - eapply (write_block_good _ p); [exact G1|nd|solve_modfs|reflexivity|reflexivity].
+      - unfold w. rewrite EF, EN. eapply (write_block_good _ p); [exact G2|nd|solve_modfs|reflexivity|reflexivity]. }
+    match goal with HS' : SIM ?s6 ?t6 |- _ =>
+      pose proof (SIM_logc s6 t6 (bc BStat p) (bc BStat p) HS') as HS7; clear HS' end.
+    match goal with |- context [be_stat ?f p true] => destruct (be_stat f p true) as [fi|e2] end.
+    + match goal with HS' : SIM ?s7 ?t7 |- context [node_upd ?s7 h ?g] =>
+        assert (HS8 : SIM (node_upd s7 h g) (node_upd t7 h g));
+        [destruct HS' as (S7 & G7 & G7'); split; [apply node_upd_sim; [exact S7|]|split; apply Good_node_upd; assumption]|clear HS'] end.
+      { intros x x' E. unfold pn in *. cbn. congruence. }
+      lock; leaf.
+    + lock; leaf.
+  - (* WriteAt failed: nothing changed *)
+    pose proof (be_writeat_err _ _ _ _ _ _ SW) as FW.
+    match goal with HSL' : SIM (logc ?a _) _ |- _ => change (fst w = fs a) in FW end.
+    match goal with |- HREL (let '(_, _) := getattr_h ?s3 _ _ in _) (let '(_, _) := getattr_h ?t3 _ _ in _) => assert (HS3 : SIM s3 t3) end.
+    { rewrite FW. destruct HSL as (SL & GL & GL'). split; [eapply sim_modfs; [exact SL|solve_modfs|solve_modfs]|]. split.
+      - apply (Good_with_fs_same (logc _ _)). exact GL.
+      - pose proof (Good_with_fs_same (logc _ (bc BOpenW p)) (bc2 BWriteAt p [] off (N.of_nat (length data))) GL') as X.
+        cbn [fs logc] in X. rewrite <- EF in X. exact X. }
+    clear HSL. lock; leaf.
+Qed.
+
+(* ====================================================================================================== *)
 (* 7. READ, the administrative actions, one request                                                       *)
 (* ====================================================================================================== *)
 Lemma handle_read_rel s t h off cnt : SIM s t -> HREL (handle_read s h off cnt) (handle_read t h off cnt).
@@ -1327,11 +1496,12 @@ Proof.
 Qed.
 
 (* the requests covered by the transparency theorem: everything except SYMLINK (it would create a link: the side
-   condition), SETATTR and WRITE (they are the data/attribute procedures of other properties; SETATTR moreover
-   compares the uid/gid held in the node, which a cache hit may legitimately have filled differently) *)
+   condition) and SETATTR (it compares the uid/gid/times held in the node with the requested ones to decide whether to
+   call Chown/Chtimes, and a cache hit may legitimately have filled those unprojected node fields differently, so the
+   two runs may differ in o_uid/o_gid/o_mtime of the object; SETATTR still preserves the invariant: handle_setattr_good) *)
 Definition c02_req (r : req) : bool :=
   match r with
-  | RSymlink _ _ _ _ | RSetattr _ _ _ | RWrite _ _ _ _ _ => false
+  | RSymlink _ _ _ _ | RSetattr _ _ _ => false
   | _ => true
   end.
 
@@ -1346,6 +1516,7 @@ Proof.
   - apply handle_access_rel; exact HS.
   - apply handle_readlink_rel; exact HS.
   - apply handle_read_rel; exact HS.
+  - apply handle_write_rel; exact HS.
   - apply handle_create_rel; exact HS.
   - apply handle_mkdir_rel; exact HS.
   - apply handle_remove_rel; exact HS.
@@ -1443,6 +1614,7 @@ Proof.
   intros G OK. assert (HS : SIM s s) by (split; [apply sim_refl|split; exact G]).
   destruct (step_rel s s c r HS OK) as [(_ & B & _) _]. exact B.
 Qed.
+
 
 (* ====================================================================================================== *)
 (* 9. one run against the tree: outcomes of the namespace procedures                                      *)
@@ -2091,6 +2263,115 @@ Proof.
   - apply (proj1 (handle_mnt_ro (clear_log s) p)).
 Qed.
 
+(* ---------- SETATTR: the invariant survives (one run) ---------- *)
+(* an intermediate state of a SETATTR on p: only the tree changed, by attribute changes of the (present) object at p *)
+Definition Mid (s : srv) (p : path) (s' : srv) : Prop :=
+  hm s' = hm s /\ conf s' = conf s /\ now s' = now s /\ ac s' = ac s /\ dc s' = dc s /\
+  attr_change (fs s) (fs s') p /\ exists o, fs_get (fs s') p = Some o.
+Lemma Mid_logc s p s' c : Mid s p s' -> Mid s p (logc s' c).
+Proof. intros M. exact M. Qed.
+Lemma Mid_meta s p s' c fl g : Mid s p s' -> nodd p -> keeps_kind g ->
+  Mid s p (fst (lift_unit s' c (be_meta (fs s') p fl g))) /\ snd (lift_unit s' c (be_meta (fs s') p fl g)) = Ok tt.
+Proof.
+  intros (M1 & M2 & M3 & M4 & M5 & M6 & [o M7]) ND K. unfold lift_unit. cbn [fst snd].
+  rewrite (be_meta_ok (fs s') p fl g o (proj1 M6) (proj1 (proj2 M6)) ND M7). cbn [fst snd]. split; [|reflexivity].
+  unfold Mid. sproj. repeat (split; [assumption|]). split.
+  - eapply attr_change_trans; [exact M6|]. apply attr_change_upd; [apply M6|apply M6|intros x _; apply K].
+  - eexists. apply fs_get_upd_some. exact M7.
+Qed.
+Lemma Good_of_mid s p s' h a : Good s -> Mid s p s' -> Good (ac_invalidate (node_set s' h a) p).
+Proof.
+  intros G (M1 & M2 & M3 & M4 & M5 & M6 & _). eapply (Good_attr'' s p (fs s') _ G M6); unfold node_set; sproj; try assumption; try reflexivity.
+  - intros e He. cbn [ac ac_invalidate with_ac with_nodes] in He. rewrite M4 in He. apply in_ac_remove in He. destruct He as [I N].
+    split; [exact I|intros _; exact N].
+  - intros _ e He. cbn [dc ac_invalidate with_ac with_nodes] in He. rewrite M5 in He. exact He.
+Qed.
+Lemma Good_of_mid' s p s' : Good s -> Mid s p s' -> (exists o, fs_get (fs s) p = Some o) -> fs s' = fs s -> Good s'.
+Proof.
+  intros [W NL H [CA CD]] (M1 & M2 & M3 & M4 & M5 & _) _ F. split; [rewrite F; exact W|rewrite F; exact NL|unfold HOK; rewrite M1; exact H|].
+  split; [rewrite F, M4; exact CA|rewrite F, M2, M5; exact CD].
+Qed.
+
+Lemma srv_setattr_good s h p cur new : Good s -> nodd p -> Good (fst (srv_setattr s h p cur new)).
+Proof.
+  intros G ND. unfold srv_setattr, do_stat. cbv zeta.
+  destruct (be_stat (fs s) p true) as [fi|e] eqn:BS; cbn [fst snd]; [|apply Good_logc; exact G].
+  destruct (be_stat_ok_inv (fs s) (g_wf s G) (g_nl s G) p true fi ND BS) as [o [Go _]].
+  set (s1 := logc s (bc BStat p)).
+  assert (M1 : Mid s p s1).
+  { unfold Mid, s1. sproj. repeat (split; [reflexivity|]). split; [apply attr_change_refl; [exact (g_wf s G)|exact (g_nl s G)]|exists o; exact Go]. }
+  clearbody s1. unfold be_chmod, be_chown.
+  (* chmod *)
+  match goal with |- context [if ?b then (s1, Ok tt) else ?X] =>
+    assert (R2 : Mid s p (fst (if b then (s1, Ok tt) else X)) /\ snd (if b then (s1, Ok tt) else X) = Ok tt);
+    [destruct b; [split; [exact M1|reflexivity]|apply Mid_meta; [exact M1|exact ND|(intros x; reflexivity)]]|] end.
+  match goal with |- context [if ?b then (s1, Ok tt) else ?X] => destruct (if b then (s1, Ok tt) else X) as [s2 x2] end.
+  cbn [fst snd] in *. destruct R2 as [M2 ->]. clear M1.
+  (* chown *)
+  match goal with |- context [if ?b then (s2, Ok tt) else ?X] =>
+    assert (R3 : Mid s p (fst (if b then (s2, Ok tt) else X)) /\ snd (if b then (s2, Ok tt) else X) = Ok tt);
+    [destruct b; [split; [exact M2|reflexivity]|apply Mid_meta; [exact M2|exact ND|(intros x; reflexivity)]]|] end.
+  match goal with |- context [if ?b then (s2, Ok tt) else ?X] => destruct (if b then (s2, Ok tt) else X) as [s3 x3] end.
+  cbn [fst snd] in *. destruct R3 as [M3 ->]. clear M2.
+  (* chtimes *)
+  match goal with |- context [if ?b then ?X else (s3, Ok tt)] =>
+    assert (R4 : Mid s p (fst (if b then X else (s3, Ok tt))) /\ snd (if b then X else (s3, Ok tt)) = Ok tt);
+    [destruct b; [|split; [exact M3|reflexivity]]|] end.
+  { destruct (na_mtime new =? 0).
+    - unfold lift_unit. cbn [fst snd]. pose proof M3 as (A1 & A2 & A3 & A4 & A5 & A6 & [o3 A7]).
+      rewrite (be_stat_present (fs s3) (proj1 A6) (proj1 (proj2 A6)) p o3 true ND A7). split; [|reflexivity].
+      unfold Mid. sproj. do 5 (split; [assumption|]). split; [exact A6|exists o3; exact A7].
+    - unfold be_chtimes. apply Mid_meta; [exact M3|exact ND|(intros x; reflexivity)]. }
+  match goal with |- context [if ?b then ?X else (s3, Ok tt)] => destruct (if b then X else (s3, Ok tt)) as [s4 x4] end.
+  cbn [fst snd] in *. destruct R4 as [M4 ->]. cbn [fst]. apply (Good_of_mid s p s4 h new G M4).
+Qed.
+
+Lemma handle_setattr_good s c h sa guard : Good s -> Good (fst (handle_setattr s c h sa guard)).
+Proof.
+  intros G. unfold handle_setattr.
+  destruct (ro (conf s)); [exact G|].
+  destruct (match s_mode sa with Some m => N.testbit m 15 | None => false end); [exact G|].
+  destruct (lookup_node s h) as [[p nd_]|] eqn:L; [|exact G].
+  destruct (kind_eqb (na_kind nd_) KLink); [exact G|].
+  assert (ND : nodd p) by (apply gpath_nodd; apply lookup_node_get in L; exact (g_hok s G h p L)).
+  destruct (getattr_h_out s h p G ND) as [_ G1]. destruct (getattr_h s h p) as [s1 [prea|e]]; cbn [fst] in *; [|exact G1].
+  destruct (match guard with Some (gs, gn) => negb ((gs =? sec_of (na_mtime prea)) && (gn =? nsec_of (na_mtime prea))) | None => false end);
+    [exact G1|].
+  cbv zeta.
+  match goal with |- context [snd ?X] =>
+    lazymatch X with (match s_size sa with Some _ => _ | None => _ end) => set (RS := X) end end.
+  assert (GR : Good (fst RS)).
+  { unfold RS. destruct (s_size sa) as [sz|]; [|exact G1].
+    destruct (two63N <=? sz); [exact G1|].
+    destruct ((0 <? maxfile (conf s1)) && (maxfile (conf s1) <? sz)); [exact G1|].
+    unfold lift_unit. cbn [fst snd].
+    destruct (be_truncate_cases (fs s1) p (Z.of_N sz) (now s1) (g_wf s1 G1) (g_nl s1 G1) ND) as [_ TE].
+    destruct (snd (be_truncate (fs s1) p (Z.of_N sz) (now s1))) as [[]|e] eqn:ST; cbn [fst snd].
+    - pose proof (truncate_block_good s1 p (Z.of_N sz) (now s1) (bc2 BTruncate p [] sz 0) G1 ND) as TG.
+      unfold do_stat. cbn [fst snd]. 
+      match goal with |- context [be_stat ?f p true] => destruct (be_stat f p true) as [fi|e2] end;
+        [apply Good_node_upd|]; apply Good_logc; exact TG.
+    - rewrite (TE e eq_refl). apply Good_with_fs_same. exact G1. }
+  clearbody RS. destruct RS as [s4 [e|]]; cbn [fst snd] in *; [exact GR|].
+  destruct (node_get s4 h) as [cur|]; [|exact GR].
+  match goal with |- context [srv_setattr s4 h p cur ?new] =>
+    pose proof (srv_setattr_good s4 h p cur new GR ND) as G5; destruct (srv_setattr s4 h p cur new) as [s5 [[]|e]] end;
+    cbn [fst] in *; [|exact G5].
+  destruct (getattr_h_out s5 h p G5 ND) as [_ G6]. destruct (getattr_h s5 h p) as [s6 [a|e]]; exact G6.
+Qed.
+
+(* every request except SYMLINK preserves the invariant *)
+Definition inv_req (r : req) : bool := match r with RSymlink _ _ _ _ => false | _ => true end.
+
+
+(* including SETATTR: every request except SYMLINK preserves the invariant *)
+Theorem Good_step_all s c r : Good s -> inv_req r = true -> Good (fst (step s c r)).
+Proof.
+  intros G OK. destruct (c02_req r) eqn:C; [apply Good_step; assumption|].
+  destruct r; try discriminate C; try discriminate OK.
+  unfold step. cbn [garbage_reply]. apply handle_setattr_good. apply Good_clear. exact G.
+Qed.
+
 (* ====================================================================================================== *)
 (* 11. success and failure against the tree (the POSIX side of C02), and the C04 corollary                *)
 (* ====================================================================================================== *)
@@ -2382,7 +2663,7 @@ Proof. intros H. apply Forall_forall. intros x Hx. exact (proj1 (forallb_forall 
 (* the statement WITHOUT the side condition: SYMLINK allowed (NOT provable: refuted below) *)
 Definition transparent_unrestricted_statement : Prop :=
   forall cfg_ mx t0 l,
-    (forall x, In x l -> match hs_req x with RSetattr _ _ _ | RWrite _ _ _ _ _ => False | _ => True end) ->
+    (forall x, In x l -> match hs_req x with RSetattr _ _ _ => False | _ => True end) ->
     let s := srv_init_fs fs_init cfg_ mx t0 in Forall2 same_step (hrun s l) (hrun_ref s l).
 
 Definition ex_cfg2 : cfg :=
@@ -2411,7 +2692,7 @@ Qed.
 Theorem transparent_unrestricted_refuted : ~ transparent_unrestricted_statement.
 Proof.
   intros H. specialize (H ex_cfg2 0%Z 100 alias_hist).
-  assert (A : forall x, In x alias_hist -> match hs_req x with RSetattr _ _ _ | RWrite _ _ _ _ _ => False | _ => True end).
+  assert (A : forall x, In x alias_hist -> match hs_req x with RSetattr _ _ _ => False | _ => True end).
   { intros x Hx. unfold alias_hist, ex_steps in Hx. apply in_map_iff in Hx. destruct Hx as [r [<- Hr]]. cbn [hs_req].
     cbn in Hr. repeat (destruct Hr as [<-|Hr]; [exact I|]). destruct Hr. }
   specialize (H A). cbv zeta in H. apply (Forall2_nth_status _ _ 10) in H. vm_compute in H. discriminate H.
@@ -2447,3 +2728,44 @@ Lemma neg_hists_agree :
   map (fun so => proj (snd so)) (hrun ex_init neg_hist2) = map (fun so => proj (snd so)) (hrun_ref ex_init neg_hist2) /\
   statuses_of (hrun ex_init neg_hist2) = [0; 0; 0; 2; 0; 0; 2; 0; 20].
 Proof. vm_compute. auto. Qed.
+
+(* ====================================================================================================== *)
+(* 13. GETATTR and READDIR against the tree                                                              *)
+(* ====================================================================================================== *)
+(* GETATTR succeeds iff the handle's path is present; READDIR iff it is a directory *)
+Theorem posix_getattr s c h p a : Good s -> lookup_node s h = Some (p, a) ->
+  let so := step s c (RGetattr h) in
+  (ob_status (snd so) = 0 <-> fs_get (fs s) p <> None) /\ fs (fst so) = fs s.
+Proof.
+  intros G L. cbv zeta. unfold step. cbn [garbage_reply]. pose proof (Good_clear s G) as G0.
+  split; [|apply (proj1 (handle_getattr_ro (clear_log s) h))].
+  unfold handle_getattr. rewrite lookup_node_clear, L.
+  assert (ND : nodd p) by (apply gpath_nodd; apply lookup_node_get in L; exact (g_hok s G h p L)).
+  change (fs s) with (fs (clear_log s)).
+  destruct (fs_get (fs (clear_log s)) p) as [o|] eqn:Gp.
+  - destruct (getattr_h_ok (clear_log s) h p o G0 ND Gp) as (s1 & x & E & _). rewrite E. cbn. split; [discriminate|reflexivity].
+  - destruct (getattr_h_absent (clear_log s) h p G0 ND Gp) as (s1 & e & E & _). rewrite E. cbn [snd ob_fail ob_status].
+    split; [intros F; exfalso; exact (map_error_nonzero e F)|congruence].
+Qed.
+Theorem posix_readdir s c h ck cnt d da : Good s -> lookup_node s h = Some (d, da) -> na_kind da = KDir ->
+  let so := step s c (RReaddir h ck cnt) in
+  (ob_status (snd so) = 0 <-> kd (fs s) d = true) /\ fs (fst so) = fs s.
+Proof.
+  intros G L K. cbv zeta. unfold step. cbn [garbage_reply]. pose proof (Good_clear s G) as G0.
+  split; [|apply (proj1 (handle_readdir_ro (clear_log s) h ck cnt))].
+  unfold handle_readdir. rewrite lookup_node_clear, L, K. cbn [kind_eqb negb].
+  assert (GD : gpath d) by (apply lookup_node_get in L; exact (g_hok s G h d L)). pose proof (gpath_nodd d GD) as ND.
+  destruct (srv_readdir_spec (clear_log s) d G0 GD) as (C1 & G1 & R). change (fs (clear_log s)) with (fs s) in *.
+  destruct (srv_readdir (clear_log s) d) as [s1 r]. cbn [fst snd] in *. unfold readdir_res in R.
+  destruct (kd (fs s) d) eqn:KD.
+  - rewrite (rd_names_dir (fs s) d (g_wf s G) (g_nl s G) ND KD) in R. destruct R as (l & -> & _).
+    apply kd_true in KD. destruct KD as [o [Go _]]. destruct C1 as (F1 & _).
+    destruct (getattr_h_ok s1 h d o G1 ND) as (s2 & x & E & _); [rewrite F1; exact Go|]. rewrite E.
+    destruct (page false cnt 0 ck 0 dir_header_len l) as [pg lim]. cbn. split; auto.
+  - assert (X : exists e, rd_names (fs s) d = Err e).
+    { unfold rd_names. destruct (be_open_spec (fs s) (g_wf s G) (g_nl s G) d false ND) as [e S]. rewrite S.
+      destruct (fs_get (fs s) d) as [o|] eqn:Go; [|exists e; reflexivity]. rewrite andb_false_r.
+      destruct (be_readdir_notdir (fs s) d KD) as [e2 E2]. rewrite E2. exists e2. reflexivity. }
+    destruct X as [e X]. rewrite X in R. subst r. cbn [snd fail_post ob_mk ob_status].
+    split; [intros F; exfalso; exact (map_error_nonzero e F)|discriminate].
+Qed.
